@@ -4096,23 +4096,12 @@ func (p *Prog) nothingDeletedMeansNothingToDelete() []Ob {
 					continue
 				}
 				// len(rs.DeletedMessages) == 0
-				if x, y, op, ok := relCond(iff.Cond); ok {
-					if lc, ok := x.(*ssa.Call); ok && isBuiltinCall(lc.Common(), "len") {
-						if f, _ := loadedField(canon(lc.Call.Args[0])); f == delField {
-							if k, isK := constInt(y); isK && k == 0 {
-								e := -1
-								switch op {
-								case token.EQL, token.LEQ:
-									e = 0
-								case token.NEQ, token.GTR:
-									e = 1
-								}
-								if e >= 0 && edgeDominates(hb, e, b) {
-									return true
-								}
-							}
-						}
+				if lv, e, ok := lenZeroEdge(iff.Cond); ok {
+					if f, _ := loadedField(canon(lv)); f == delField && edgeDominates(hb, e, b) {
+						return true
 					}
+				}
+				if x, y, op, ok := relCond(iff.Cond); ok {
 					// a reader looked up under the lock turned out nil: the segment is gone
 					for _, pair := range [][2]ssa.Value{{x, y}, {y, x}} {
 						if isNilConst(pair[1]) && namedOf(derefPtr(pair[0].Type())) == r.SegReader {
@@ -4958,13 +4947,13 @@ func (p *Prog) queriesKeepNoState() []Ob {
 			for _, ins := range b.Instrs {
 				switch x := ins.(type) {
 				case *ssa.Store:
-					if fa, ok := x.Addr.(*ssa.FieldAddr); ok && namedOf(derefPtr(fa.X.Type())) == r.Impl && !resetByDelete[fieldVarOfAddr(fa)] {
+					if fa, ok := x.Addr.(*ssa.FieldAddr); ok && namedOf(derefPtr(fa.X.Type())) == r.Impl && !resetByDelete[fieldVarOfAddr(fa)] && p.fieldsReadOnQueryPaths()[fieldVarOfAddr(fa)] {
 						bad = append(bad, fmt.Sprintf("%s: Log.%s stores to the field %s of the log, which Delete never resets", p.at(x), q, fieldVarOfAddr(fa).Name()))
 					}
 				case *ssa.Call:
 					nm := calleeName(x.Common())
 					if strings.HasPrefix(nm, "(*sync/atomic.") && (strings.HasSuffix(nm, ").Store") || strings.HasSuffix(nm, ").Add") || strings.HasSuffix(nm, ").Swap") || strings.HasSuffix(nm, ").CompareAndSwap")) && len(x.Call.Args) > 0 {
-						if fa, ok := x.Call.Args[0].(*ssa.FieldAddr); ok && namedOf(derefPtr(fa.X.Type())) == r.Impl && !resetByDelete[fieldVarOfAddr(fa)] {
+						if fa, ok := x.Call.Args[0].(*ssa.FieldAddr); ok && namedOf(derefPtr(fa.X.Type())) == r.Impl && !resetByDelete[fieldVarOfAddr(fa)] && p.fieldsReadOnQueryPaths()[fieldVarOfAddr(fa)] {
 							bad = append(bad, fmt.Sprintf("%s: Log.%s updates the atomic field %s of the log, which Delete never resets", p.at(x), q, fieldVarOfAddr(fa).Name()))
 						}
 					}
@@ -5434,8 +5423,8 @@ func (p *Prog) queryStateIsLifecycleState() []Ob {
 					continue
 				}
 				f, n := roleField(addr)
-				if f == nil {
-					continue
+				if f == nil || !p.fieldsReadOnQueryPaths()[f] {
+					continue // (a field no query path ever reads feeds no answer)
 				}
 				nWrites++
 				var api1 string
@@ -6160,21 +6149,9 @@ func (p *Prog) deleteAnswersNothingOnlyForNothing() []Ob {
 			if !ok {
 				continue
 			}
-			x, y, op, ok := relCond(iff.Cond)
-			if !ok {
+			lv, e, ok := lenZeroEdge(iff.Cond)
+			if !ok || canon(lv) != ssa.Value(set) {
 				continue
-			}
-			lc, isL := x.(*ssa.Call)
-			k, isK := constInt(y)
-			if !isL || !isK || k != 0 || !isBuiltinCall(lc.Common(), "len") || canon(lc.Call.Args[0]) != ssa.Value(set) {
-				continue
-			}
-			e := -1
-			switch op {
-			case token.EQL, token.LEQ:
-				e = 0
-			case token.NEQ, token.GTR:
-				e = 1
 			}
 			if e >= 0 && edgeDominates(hb, e, b) {
 				return true
@@ -6208,4 +6185,63 @@ func (p *Prog) deleteAnswersNothingOnlyForNothing() []Ob {
 		ob.Status, ob.Msg = Discharged, fmt.Sprintf("%d success return(s) of Log.Delete's own, each behind len(offsets) == 0", n)
 	}
 	return []Ob{ob}
+}
+
+// fieldsReadOnQueryPaths: the struct fields whose value a function on a query path can observe (a
+// load, an atomic read-modify-write whose result is used, a nested access, or the address escaping
+// into a call). A field that query paths only ever write - a statistics counter - feeds no answer.
+func (p *Prog) fieldsReadOnQueryPaths() map[*types.Var]bool {
+	if p.fieldsReadMemo != nil {
+		return p.fieldsReadMemo
+	}
+	queries := map[string]bool{"Consume": true, "ConsumeByKey": true, "Get": true, "GetByKey": true, "OffsetByKey": true, "GetByTime": true, "OffsetByTime": true, "NextOffset": true, "Stat": true, "Size": true}
+	out := map[*types.Var]bool{}
+	for fn, api := range p.apiReach() {
+		isQ := false
+		for a := range api {
+			if queries[a] {
+				isQ = true
+			}
+		}
+		if !isQ {
+			continue
+		}
+		for _, b := range fn.Blocks {
+			for _, ins := range b.Instrs {
+				fa, ok := ins.(*ssa.FieldAddr)
+				if !ok || fa.Referrers() == nil {
+					continue
+				}
+				f := fieldVarOfAddr(fa)
+				for _, ref := range *fa.Referrers() {
+					switch x := ref.(type) {
+					case *ssa.Store:
+						if x.Addr != ssa.Value(fa) {
+							out[f] = true // the address itself is stored somewhere
+						}
+					case *ssa.Call:
+						nm := calleeName(x.Common())
+						if strings.HasPrefix(nm, "(*sync/atomic.") {
+							switch {
+							case strings.HasSuffix(nm, ").Store"):
+							case strings.HasSuffix(nm, ").Add"), strings.HasSuffix(nm, ").And"), strings.HasSuffix(nm, ").Or"):
+								if x.Referrers() != nil && len(*x.Referrers()) > 0 {
+									out[f] = true
+								}
+							default:
+								out[f] = true
+							}
+						} else {
+							out[f] = true
+						}
+					case *ssa.DebugRef:
+					default:
+						out[f] = true
+					}
+				}
+			}
+		}
+	}
+	p.fieldsReadMemo = out
+	return out
 }
